@@ -505,6 +505,8 @@ def evaluate(chk, cases, exe, mexe):
         body, problems = canon(impl[i])
         if body is None:
             chk.fail(case, "implementation: %s" % problems[0], extra={"scenario": lines[i][0]})
+            if model is not None:
+                chk.disagree("sendqueue", case, (impl[i] or "")[:300], (model[i] or "")[:3000])
             continue
         for p in problems:
             chk.fail(case, "implementation: " + p, extra={"scenario": lines[i][0]})
